@@ -40,6 +40,10 @@ class Atom:
 def atoms(test, pol=True, origin=None) -> list[Atom]:
     if isinstance(test, ast.UnaryOp) and isinstance(test.op, ast.Not):
         return atoms(test.operand, not pol, origin)
+    if isinstance(test, ast.Call) and isinstance(test.func, ast.Name) and \
+            test.func.id == "bool" and len(test.args) == 1 and \
+            not test.keywords:
+        return atoms(test.args[0], pol, origin)
     if isinstance(test, ast.BoolOp):
         if (isinstance(test.op, ast.And) and pol) or (
                 isinstance(test.op, ast.Or) and not pol):
@@ -83,11 +87,66 @@ def _block_of(parent, child):
     return None, None
 
 
+def _resolver_for(node):
+    fn = node
+    while fn is not None and not isinstance(fn, (ast.FunctionDef,
+                                                 ast.AsyncFunctionDef)):
+        fn = getattr(fn, "_parent", None)
+    if fn is None:
+        return None
+    r = getattr(fn, "_sa_resolver", None)
+    if r is None:
+        from .symres import Resolver
+        try:
+            r = Resolver(fn)
+        except Exception:
+            r = False
+        fn._sa_resolver = r
+    return r or None
+
+
+def _expand(atom_list, node):
+    """a condition held in a local boolean (`flag = a or b; if flag:`) is
+    replaced by the atoms of its single reaching definition"""
+    R = None
+    out = []
+    for a in atom_list:
+        n = a.node
+        if isinstance(n, ast.Name) and hasattr(n, "_parent"):
+            if R is None:
+                R = _resolver_for(node)
+            v = R.reaching_value(n) if R is not None else None
+            if v is not None and isinstance(v, (ast.BoolOp, ast.Compare,
+                                                ast.UnaryOp, ast.Call,
+                                                ast.Name)) and not (
+                    isinstance(v, ast.Call) and not (
+                        isinstance(v.func, ast.Name)
+                        and v.func.id == "bool")):
+                sub = atoms(v, a.pol, a.origin)
+                if not (len(sub) == 1 and sub[0].text == a.text):
+                    out.extend(_expand(sub, node))
+                    out.append(a)
+                    continue
+        out.append(a)
+    return out
+
+
 def conditions_at(node, stop=None) -> list[Atom]:
+    return _expand(_conditions_at(node, stop), node)
+
+
+def _conditions_at(node, stop=None) -> list[Atom]:
     out: list[Atom] = []
     child = node
     parent = getattr(node, "_parent", None)
-    while parent is not None and child is not stop and parent is not stop:
+    while parent is not None and child is not stop:
+        if parent is stop:
+            # conditions established inside the stop node's own block still
+            # count (early exits before `child`), its own test does not
+            fld, blk = _block_of(parent, child)
+            if blk is not None and fld != "handlers":
+                out.extend(_earlier(blk, child))
+            break
         if isinstance(parent, (ast.FunctionDef, ast.AsyncFunctionDef,
                                ast.Lambda, ast.ClassDef, ast.Module)):
             # earlier siblings in the function body still count
